@@ -694,7 +694,7 @@ def normalise_input(schema, doc):
 
 def _norm_props(schema, props, doc, path):
     if not isinstance(doc, dict):
-        if len(props) == 1 and doc is not None and not isinstance(doc, list) and path != "$":
+        if len(props) == 1 and doc is not None and not isinstance(doc, list):
             # the schema language lets an object with a single property be written as that property's value
             (k, p), = props.items()
             return {k: _norm_type(schema, p["type"], doc, path + "." + k)}
